@@ -93,7 +93,7 @@ claim('C14', 'abstract interpretation of the code generator per target version o
       'Decides instruction alignment of everything the generator emits (so that every recorded lasti / patched jump target is an instruction boundary), the 3.11 inline-cache '
       'sizes against CPython\'s _inline_cache_entries, single ownership of the code array and of the stack accounting fields, the index space of every operand (R4), the pairing of '
       'the load form and the call form of method calls over 64 truth assignments (R5), the arithmetic of the line table (R6: bounded bytes, no trapping conversion, conserved totals; '
-      'R7: table format per target — 2 known findings), operand width (R8), the closure tuple against the inner co_freevars (R9) and pass-through capture (R10: known finding).',
+      'R7: table format per target — the raw co_lnotab up to 3.9, encoders with the constants of PEP 626 / PEP 657 for 3.10 / 3.11, chosen in CodeObj::into_bytes), operand width (R8), the closure tuple against the inner co_freevars (R9) and pass-through capture (R10: known finding).',
       'Does not decide that stacksize bounds the real operand depth, nor jump target values.',
       'DESIGN.md §3 C14')
 
@@ -136,7 +136,7 @@ claim('C03', 'row-by-row soundness of the comparison-atom arms of is_super_pred_
 
 claim('C32', 'table rule over the resolved arms of Predicate::invert / and / or under the three-orderings model; propositional equivalence (truth tables) of the arms and branches of and / or',
       'Decides the comparison-atom rows of invert (each must denote the complement), the TRUE/FALSE rows and the Equal-or-GreaterEqual short-cut of and/or, exhaustively for those rows '
-      '(2 known findings: General<=/>= are inverted to each other), and that every arm / branch of Predicate::and and Predicate::or in the propositional fragment returns the '
+      '(General<=/>= were inverted to each other at the start: repaired), and that every arm / branch of Predicate::and and Predicate::or in the propositional fragment returns the '
       'conjunction / disjunction of its arguments under the equalities its branch conditions state.',
       'Or-sets (treated as opaque atoms) and the arithmetic short-cuts other than Equal-or-GreaterEqual are not decided.',
       'DESIGN.md §3 C32')
